@@ -317,6 +317,31 @@ type c19Thread struct {
 	listedNm string
 	// resources in the store when this reconcile last listed resources (selector resolution)
 	resListed map[string]*c19SRes
+	// the Usage (by uid) and its using resource (by uid) as they were when this reconcile started;
+	// held = both are still the same objects after every scenario step since (nil: no resolved spec.by)
+	trk *c19Track
+}
+
+// c19Track: "the Usage and its using resource exist, as the same objects, throughout the reconcile".
+type c19Track struct {
+	usageUID types.UID
+	usingKey string
+	usingUID types.UID
+	held     bool
+}
+
+// c19Claim: a reconcile of Usage `usage` (uid usageUID) completed successfully while its using
+// resource (usingKey, uid usingUID) existed throughout: from then on, as long as that using
+// resource exists and nobody asks for the Usage's deletion, the Usage must not be collected
+// and the used resource (usedKey, uid usedUID) must not become deletable.
+type c19Claim struct {
+	usage    string
+	usageUID types.UID
+	usedKey  string
+	usedUID  types.UID
+	usingKey string
+	usingUID types.UID
+	released bool
 }
 
 type c19Gate struct {
@@ -431,6 +456,10 @@ type c19Sys struct {
 	tainted map[types.UID]bool
 	// born[uid] = key of the resource that was created with that uid (never forgotten)
 	born map[types.UID]string
+	// claims[usage uid]: see c19Claim
+	claims map[types.UID]*c19Claim
+	// released[usage uid]: a user asked for the deletion of that Usage
+	released map[types.UID]bool
 }
 
 func (s *c19Sys) mon(sig, why string) {
@@ -445,7 +474,7 @@ func c19NewSys(maxc int) *c19Sys {
 	sc := runtime.NewScheme()
 	_ = v1beta1.AddToScheme(sc)
 	st := NewStore(sc)
-	s := &c19Sys{st: st, maxc: maxc, threads: map[string]*c19Thread{}, monSeen: map[string]bool{}, stale: map[string]bool{}, tainted: map[types.UID]bool{}, born: map[types.UID]string{}}
+	s := &c19Sys{st: st, maxc: maxc, threads: map[string]*c19Thread{}, monSeen: map[string]bool{}, stale: map[string]bool{}, tainted: map[types.UID]bool{}, born: map[types.UID]string{}, claims: map[types.UID]*c19Claim{}, released: map[types.UID]bool{}}
 	s.wire = c19NewWire(st)
 	if s.wire.err != "" {
 		s.mon("C19:webhook-setup-failed", s.wire.err)
@@ -587,7 +616,99 @@ func (s *c19Sys) start(name string) string {
 	if t.done {
 		return "started;" + s.finish(t)
 	}
+	t.trk = s.trackOf(name)
 	return "started"
+}
+
+// trackOf: the Usage `name` has a resolved spec.by and its using resource exists.
+func (s *c19Sys) trackOf(name string) *c19Track {
+	sn := s.snapshot()
+	u, ok := sn.Usages[name]
+	if !ok || !u.HasBy || u.ByName == "" {
+		return nil
+	}
+	k := c19ResKey(u.ByGroup, u.ByKind, u.ByName)
+	g, ok := sn.Res[k]
+	if !ok {
+		return nil
+	}
+	return &c19Track{usageUID: u.UID, usingKey: k, usingUID: g.UID, held: true}
+}
+
+// stillHeld: the tracked Usage and using resource are still the same objects in sn.
+func (t *c19Thread) stillHeld(sn *c19Snap) bool {
+	if t.trk == nil || !t.trk.held {
+		return false
+	}
+	u, ok := sn.Usages[t.name]
+	if !ok || u.UID != t.trk.usageUID || !u.HasBy || c19ResKey(u.ByGroup, u.ByKind, u.ByName) != t.trk.usingKey {
+		return false
+	}
+	g, ok := sn.Res[t.trk.usingKey]
+	return ok && g.UID == t.trk.usingUID
+}
+
+// holdAll is run after every scenario step: a reconcile whose Usage or using resource was
+// deleted or replaced while it was in flight promises nothing about ownership.
+func (s *c19Sys) holdAll(sn *c19Snap) {
+	for _, t := range s.threads {
+		if t.trk != nil && t.trk.held && !t.stillHeld(sn) {
+			t.trk.held = false
+		}
+	}
+}
+
+// afterReconcile is run when a reconcile returned success (poll). If the Usage and its using
+// resource existed throughout, the Usage must now carry an owner reference with the using
+// resource's CURRENT uid (ownership is by uid: a reference with the right name and another
+// uid is dangling, the garbage collector would collect the Usage while its user exists).
+func (s *c19Sys) afterReconcile(t *c19Thread) {
+	sn := s.snapshot()
+	if !t.stillHeld(sn) {
+		return
+	}
+	u := sn.Usages[t.name]
+	owned := false
+	for _, o := range u.Owners {
+		if o.UID == t.trk.usingUID {
+			owned = true
+		}
+	}
+	if !owned {
+		s.mon("C19:usage-not-owned-by-current-user", fmt.Sprintf("the reconcile of Usage %s succeeded while its using resource %s existed throughout, but no owner reference of the Usage carries that resource's current uid (owner references: %s)", t.name, t.trk.usingKey, c19RefNames(u.Owners)))
+	}
+	if u.Deleting || s.released[u.UID] {
+		// the deletion of the Usage has been requested (by its user, or by the garbage collector
+		// for an earlier incarnation of the using resource): a reconcile that was already in
+		// flight promises no further protection
+		return
+	}
+	c := &c19Claim{usage: t.name, usageUID: u.UID, usingKey: t.trk.usingKey, usingUID: t.trk.usingUID}
+	for k, r := range sn.Res {
+		if u.names(r) {
+			c.usedKey, c.usedUID = k, r.UID
+		}
+	}
+	s.claims[u.UID] = c
+}
+
+func c19RefNames(refs []metav1.OwnerReference) string {
+	out := []string{}
+	for _, o := range refs {
+		out = append(out, o.Kind+"/"+o.Name)
+	}
+	sort.Strings(out)
+	return "[" + strings.Join(out, " ") + "]"
+}
+
+// claimLive: the using resource of claim c still exists (same uid) in sn and nobody asked for
+// the deletion of the Usage.
+func (c *c19Claim) live(sn *c19Snap) bool {
+	if c.released {
+		return false
+	}
+	g, ok := sn.Res[c.usingKey]
+	return ok && g.UID == c.usingUID
 }
 
 func (s *c19Sys) finish(t *c19Thread) string {
@@ -613,6 +734,9 @@ func (s *c19Sys) finish(t *c19Thread) string {
 	}
 	if t.err != nil {
 		r += "/err"
+	}
+	if r == "poll" {
+		s.afterReconcile(t)
 	}
 	return "done:" + r
 }
@@ -749,7 +873,11 @@ func (s *c19Sys) gc(st c19Step) string {
 		}
 	}
 	if st.Kind == v1beta1.UsageKind && c19Group(av) == v1beta1.Group {
+		before := s.snapshot()
 		err := s.st.Delete(context.Background(), &v1beta1.Usage{ObjectMeta: metav1.ObjectMeta{Name: st.Name}})
+		if c, ok := s.claims[o.GetUID()]; ok && err == nil && c.live(before) {
+			s.mon("C19:usage-collected-while-user-exists", fmt.Sprintf("the garbage collector deleted Usage %s (all its owner references %s are dangling) although its using resource %s exists and the Usage was reconciled successfully since that resource was created", st.Name, c19RefNames(refs), c.usingKey))
+		}
 		return "gc:" + c19ErrStr(err)
 	}
 	return "gc:" + s.deleteRes(o.GetAPIVersion(), st.Kind, st.Name, "Background", nil, true)
@@ -797,7 +925,12 @@ func (s *c19Sys) exec(st c19Step) string {
 	case "du":
 		before := s.snapshot()
 		err := s.st.Delete(ctx, &v1beta1.Usage{ObjectMeta: metav1.ObjectMeta{Name: st.Name}})
-		_ = before
+		if b, ok := before.Usages[st.Name]; ok {
+			s.released[b.UID] = true // the user asked for the release
+			if c, ok := s.claims[b.UID]; ok {
+				c.released = true
+			}
+		}
 		return c19ErrStr(err)
 	case "dr":
 		return s.deleteRes(st.AV, st.Kind, st.Name, st.Policy, st.WO, false)
@@ -1162,6 +1295,16 @@ func (s *c19Sys) afterDelete(before *c19Snap, group, kind, name, policy, res str
 		}
 	}
 	if allowed {
+		for _, c := range s.claims {
+			if c.usedKey != k || c.usedUID != rb.UID || !c.live(before) {
+				continue
+			}
+			// a ready, not deleted Usage of the claim is the case reported above (delete-allowed-while-ready)
+			if u, ok := before.Usages[c.usage]; ok && u.UID == c.usageUID && !u.Deleting {
+				continue
+			}
+			s.mon("C19:used-deletable-while-user-exists", fmt.Sprintf("delete of %s was allowed although its user %s still exists: Usage %s, reconciled successfully since that user was created, is gone or terminating without anybody having asked for its deletion", k, c.usingKey, c.usage))
+		}
 		delete(s.stale, k)
 		if _, still := after.Res[k]; still {
 			s.mon("C19:allowed-delete-did-not-delete", "delete of "+k+" was allowed but the object is still there")
@@ -1219,7 +1362,9 @@ func c19Run(scn c19Scn) (c19Obs, []Mon) {
 		before := s.snapshot()
 		r := s.exec(st)
 		steps = append(steps, r)
-		s.checkState(before, s.snapshot(), i)
+		after := s.snapshot()
+		s.checkState(before, after, i)
+		s.holdAll(after)
 	}
 	obs := s.observe(steps)
 	s.drain()
